@@ -3,8 +3,8 @@ CONSTANTS
   P = 100
   Addrs <- TraceAddrs
   AddrSeq <- TraceAddrSeq
-  Setups <- MCSetups
-  Denoms = {"uc4e"}
+  Setups <- TraceSetups
+  Denoms = {"uc4e", "stake"}
   VDenom = "uc4e"
   VTypes <- MCVTypes
   Tries = {}
